@@ -10,7 +10,7 @@
 From Coq Require Import NArith ZArith List Bool.
 From Chess3 Require Import Base.Bits Base.Word Model.Types Model.BoardDef Model.Board Model.Movegen Model.ApplyMoves.
 From Chess3 Require Import Spec.Geometry Spec.Chess Spec.Rep Gen.Zobrist.
-From Chess3 Require Import Proofs.SuccMain Proofs.SuccRep.
+From Chess3 Require Import Proofs.SuccFacts Proofs.SuccMain Proofs.SuccRep Proofs.SuccValid.
 Import ListNotations.
 Open Scope N_scope.
 
@@ -20,8 +20,23 @@ Open Scope N_scope.
 Theorem C02_succ : forall z b m,
   Rep b -> valid (abs b) = true -> (0 <= fifty b < 32767)%Z -> legal_spec (abs b) m = true ->
   abs (fst (make z b m)) = succ_spec (abs b) m.
-Proof. exact C02_succ_proof. Qed.
+Proof. exact C02_succ_valid. Qed.
 Print Assumptions C02_succ.
+
+(* the same under the weaker hypothesis [valid_core] (Proofs/SuccFacts.v): 64 squares, one king per
+   side, side not to move not in check, en-passant target consistent - the part of [valid] the proof
+   uses, and the part that legal moves are PROVED to preserve (C02_valid_core_step) *)
+Theorem C02_succ_core : forall z b m,
+  Rep b -> valid_core (abs b) = true -> (0 <= fifty b < 32767)%Z -> legal_spec (abs b) m = true ->
+  abs (fst (make z b m)) = succ_spec (abs b) m.
+Proof. exact C02_succ_proof. Qed.
+Print Assumptions C02_succ_core.
+Theorem C02_valid_implies_core : forall p, valid p = true -> valid_core p = true.
+Proof. exact valid_valid_core. Qed.
+Theorem C02_valid_core_step : forall z b m,
+  Rep b -> valid_core (abs b) = true -> legal_spec (abs b) m = true -> valid_core (abs (fst (make z b m))) = true.
+Proof. exact valid_core_make. Qed.
+Print Assumptions C02_valid_core_step.
 
 (* the hard clause by itself: after a double push CanEnPassant (an occupancy surgery on the board
    BEFORE the push) answers exactly whether the successor position records the passed-over square,
@@ -31,31 +46,25 @@ Theorem C02_can_en_passant : forall b m,
   holds (abs b) (mv_from m) (stm b) Pawn = true ->
   (mv_to m = mv_from m + 16 \/ mv_to m + 16 = mv_from m) ->
   (can_en_passant b (mv_to m) = true <-> epsq (succ_spec (abs b) m) = Some ((mv_from m + mv_to m) / 2)).
-Proof. exact can_en_passant_succ. Qed.
+Proof. exact can_en_passant_valid. Qed.
 Print Assumptions C02_can_en_passant.
 
 (* ------------------------------------------------------------------------------------------ *)
 (* MakeMove keeps the representation invariant (any Zobrist table with 64-bit entries) *)
 Theorem C02_make_Rep : forall z, zob_ok z ->
-  forall b m, Rep b -> valid (abs b) = true -> legal_spec (abs b) m = true -> (0 <= fifty b < 32767)%Z ->
+  forall b m, Rep b -> valid_core (abs b) = true -> legal_spec (abs b) m = true -> (0 <= fifty b < 32767)%Z ->
               Rep (fst (make z b m)).
 Proof. exact make_Rep_proof. Qed.
 Print Assumptions C02_make_Rep.
 
-(* chains of legal moves (game histories of arbitrary length).
-   FULL statement: *)
-Definition C02_chain_statement (z : zobrist) : Prop :=
+(* chains of legal moves (game histories of arbitrary length): no further hypothesis.  The position
+   reached is again representable and valid_core, so the theorem can be applied again from there. *)
+Theorem C02_chain : forall z, zob_ok z ->
   forall ms b, Rep b -> valid (abs b) = true -> (0 <= fifty b)%Z -> (fifty b + Z.of_nat (length ms) < 32768)%Z ->
   legal_chain (abs b) ms = true ->
-  abs (play z b ms) = play_spec (abs b) ms /\ Rep (play z b ms) /\ valid (abs (play z b ms)) = true.
-(* PROVED: the induction, from the single step and C02_make_Rep, under ONE named hypothesis about the
-   specification alone:
-     valid_step_statement : a legal move leads from a valid position to a valid position
-   (forall p m, valid p = true -> legal_spec p m = true -> valid (succ_spec p m) = true). *)
-Theorem C02_chain_partial_given_valid_step : forall z, zob_ok z ->
-  valid_step_statement -> C02_chain_statement z.
-Proof. exact chain_proof'. Qed.
-Print Assumptions C02_chain_partial_given_valid_step.
+  abs (play z b ms) = play_spec (abs b) ms /\ Rep (play z b ms) /\ valid_core (abs (play z b ms)) = true.
+Proof. exact chain_valid. Qed.
+Print Assumptions C02_chain.
 
 (* ------------------------------------------------------------------------------------------ *)
 (* the UCI move list: applyMoves plays exactly the longest prefix of tokens that parseUCIMove
@@ -74,14 +83,13 @@ Proof. exact parse_pseudo_legal. Qed.
 Print Assumptions C02_uci_accepts_pseudo_legal.
 
 (* ... and when the accepted tokens are legal moves the position shown is the iterated successor *)
-Theorem C02_uci_legal_partial_given_valid_step : forall z, zob_ok z ->
-  valid_step_statement ->
+Theorem C02_uci_legal : forall z, zob_ok z ->
   forall toks b, Rep b -> valid (abs b) = true -> (0 <= fifty b)%Z ->
   (fifty b + Z.of_nat (length (accepted_moves z b toks)) < 32768)%Z ->
   legal_chain (abs b) (accepted_moves z b toks) = true ->
   abs (apply_moves z b toks) = play_spec (abs b) (accepted_moves z b toks).
-Proof. exact uci_legal_proof'. Qed.
-Print Assumptions C02_uci_legal_partial_given_valid_step.
+Proof. exact uci_legal_valid. Qed.
+Print Assumptions C02_uci_legal.
 
 (* ------------------------------------------------------------------------------------------ *)
 (* the clock never wraps for histories shorter than 32767 reversible plies (any moves at all) *)
